@@ -438,6 +438,29 @@ def clause8_key_copy(ctx, P):
            "existence test used the full one - the same path can be added twice and the owner's change finds nothing" % why)
 
 
+def clause9_no_embedded_nul(ctx, P):
+    """paths (and every other string) are C strings inside the daemon: hash, strcmp and duplicate_string stop at the first 0 byte.  So
+    the string decoder of the bundled cJSON must never store a 0 byte inside a string - the only way in is the escape \\u0000, which
+    utf16_literal_to_utf8() therefore refuses on every path that reports success (otherwise "x", "x\\u0000one" and "x\\u0000two" name
+    one element: a free path is refused as existing, requests on unknown paths succeed)"""
+    f = P.fn("cJSON.c:utf16_literal_to_utf8")
+    bad = None
+    n = 0
+    for v in Q.path_views(ctx, P, f, loop_iters=1):
+        rc = v.ret_const()
+        if rc == 0:
+            continue
+        n += 1
+        nonzero = v.has_atom(lambda a, p: a[0] == "cmp" and a[3] == ("const", 0) and
+                             (Q.is_call_to(a[2], "parse_hex4") or a[2][0] == "phi" or (a[2][0] == "op" and Q.mentions(a[2], lambda x: Q.is_call_to(x, "parse_hex4")))) and
+                             ((a[1] == "ne" and p) or (a[1] == "eq" and not p) or (a[1] in ("ugt", "sgt") and p)))
+        if not nonzero:
+            bad = v
+    ctx.ob("C04.1 R-GATE", f, "no-zero-byte-inside-a-string", bad is None and n > 0,
+           "utf16_literal_to_utf8() accepts the code point 0 (\\u0000) and stores a 0 byte in the middle of the decoded string: the rest of "
+           "a path is invisible to the element table, so different paths name one element", witness=bad.witness() if bad else None)
+
+
 def run(ctx):
     for cfg in ctx.configs():
         clause6_wrappers(ctx, cfg.P)
@@ -448,3 +471,4 @@ def run(ctx):
         clause4_commit(ctx, cfg.P, cfg.cg)
         clause5_success_effect(ctx, cfg.P, cfg.cg)
         clause8_key_copy(ctx, cfg.P)
+        clause9_no_embedded_nul(ctx, cfg.P)
